@@ -3,13 +3,21 @@ namespace PolyVerif.Driver.C12
 open PolyVerif PolyVerif.Seqhash
 
 def hexVal (c : Char) : Nat :=
-  if c.isDigit then c.toNat - 48 else if 'a' ≤ c && c ≤ 'f' then c.toNat - 87 else if 'A' ≤ c && c ≤ 'F' then c.toNat - 55 else 0
+  if c.isDigit then c.toNat - 48 else c.toNat - 87
 
-/-- decode a hex string into bytes, each byte represented as the code point of the same value
-(the model compares code points, Go compares bytes: the same order) -/
-def unhex : List Char → List Char
-  | a :: b :: rest => Char.ofNat (16 * hexVal a + hexVal b) :: unhex rest
+/-- well-formed hex as the harness writes it and the generator emits it: lower-case digits, even length -/
+def isHexStr (s : String) : Bool :=
+  let cs := s.toList
+  cs.length % 2 == 0 && cs.all fun c => c.isDigit || ('a' ≤ c && c ≤ 'f')
+
+/-- decode a well-formed hex string into bytes, each byte represented as the code point of the same
+value (the model compares code points, Go compares bytes: the same order) -/
+def unhexL : List Char → List Char
+  | a :: b :: rest => Char.ofNat (16 * hexVal a + hexVal b) :: unhexL rest
   | _ => []
+
+/-- `none` for anything that is not well-formed hex (a malformed reply is a FAIL, never decoded) -/
+def unhex (s : String) : Option Str := if isHexStr s then some (unhexL s.toList) else none
 
 def hexOf (s : Str) : String :=
   String.ofList (s.flatMap fun c => [Seqhash.hexDigit (c.toNat / 16), Seqhash.hexDigit (c.toNat % 16)])
@@ -18,30 +26,44 @@ def hexOf (s : Str) : String :=
 decodes, calls RotateSequence on the raw bytes and replies in hex) -/
 def render (f : List String) : List String := f
 
-def judgeBytes (cs : Str) (out : List String) (dec : String → Str) (enc : Str → String) : Verdict :=
-    let m := match rotateSequence cs with
+def judgeBytes (cs : Str) (out : List String) (dec : String → Option Str) (enc : Str → String) : Verdict :=
+    let model := rotateSequence cs
+    let m := match model with
       | some r => ["ok", enc r]
       | none => ["panic"]
     let outN := match out with | "panic" :: _ => ["panic"] | o => o
     let short := cs.length ≤ 1500
-    -- spec: the arg-min over all rotations (short inputs) / the independent two-pointer algorithm (long inputs)
-    let expect := if short then Spec.leastRotation cs else Spec.leastRotationFast cs
-    let fastOk := !short || Spec.leastRotationFast cs == expect
-    let j := match out with
-      | ["ok", r] => dec r == expect && fastOk
-      | _ => false
+    -- the property's spec value.  Short inputs: the arg-min over all rotations, evaluated directly.
+    -- Long inputs (the quadratic arg-min is infeasible): the model's value, which
+    -- `Props.C12Booth.booth_least` proves equal to the arg-min for every string.
+    let expect : Option Str := if short then some (Spec.leastRotation cs) else model
+    -- property verdict: the reply is well-formed and decodes to the least rotation
+    let j := match out, expect with
+      | ["ok", r], some e => dec r == some e
+      | _, _ => false
+    -- self-test of the check's own helpers, NOT part of the property verdict: the independent
+    -- two-pointer algorithm must agree with the spec value (arg-min / proved model) on every input.
+    -- A disagreement is reported through `corr` (a broken obligation of the check), class `selftest-fail`.
+    let selfOk := match expect with
+      | some e => Spec.leastRotationFast cs == e
+      | none => false
     let allSame := match cs with | [] => true | c :: rest => rest.all (· == c)
-    { corr := outN == m, judge := some j,
-      cls := (if cs.length < 2 || allSame then "triv:" else "") ++ (if short then "argmin" else "twoptr") ++
-             (if expect == cs then "/already-least" else "/moved"),
-      detail := if outN == m && j then "" else lineOf (m ++ ["spec", enc expect]) }
+    { corr := outN == m && selfOk, judge := some j,
+      cls := (if selfOk then "" else "selftest-fail:") ++
+             (if cs.length < 2 || allSame then "triv:" else "") ++ (if short then "argmin" else "long") ++
+             (if expect == some cs then "/already-least" else "/moved"),
+      detail := if outN == m && j && selfOk then "" else
+        lineOf (m ++ ["spec", (expect.map enc).getD "?", "twoptr", enc (Spec.leastRotationFast cs)]) }
 
 def judge (f out : List String) : Verdict :=
   match f with
-  | ["rotate", s] => judgeBytes s.toList out String.toList String.ofList
+  | ["rotate", s] => judgeBytes s.toList out (fun r => some r.toList) String.ofList
   | ["rotatehex", h] =>
-    let v := judgeBytes (unhex h.toList) out (fun r => unhex r.toList) hexOf
-    { v with cls := v.cls ++ "/bytes" }
+    match unhex h with
+    | some cs =>
+      let v := judgeBytes cs out unhex hexOf
+      { v with cls := v.cls ++ "/bytes" }
+    | none => { corr := false, judge := none, cls := "bad-case", detail := "case is not lower-case hex" }
   | _ => { corr := false, judge := none, cls := "bad-case", detail := "bad case" }
 
 def driver : PropDriver := { render, judge }
